@@ -55,6 +55,9 @@ def snap_case(args):
         pts = [Fr(k, tps)]
         if mode == "fine":
             pts += [Fr(k, tps) + f / tps for f in (Fr(1, 4), Fr(1, 2), Fr(3, 4), Fr(1, 10**4), 1 - Fr(1, 10**4))]
+            if Fr(k + 1, tps) < 20:
+                # a hair (0.5 picoseconds) below / above a boundary: 13+ significant decimals, still far more than float rounding
+                pts += [Fr(k + 1, tps) - Fr(5, 10**13), Fr(k, tps) + Fr(5, 10**13)]
         else:
             pts = [Fr(k), Fr(k) + Fr(1, 2)]   # whole seconds and mid-points (tick rates without finite decimals)
         for x in pts:
